@@ -1,0 +1,54 @@
+//go:build verif
+
+// Contracts for package syncmap, read by the verification-condition generator in
+// /verif (govc).  Comment-only.  The generic bodies are verified once, for
+// arbitrary K and V; callers inline them ("inline"), so what a caller knows about a
+// call is the body itself.
+
+package syncmap
+
+//@ lock SyncMap.mu level 3
+
+// The map is read and written under mu only - also by the iterators, which walk a
+// snapshot taken under the lock (their loop bodies may call Set and Delete).
+//@ field map_map_K_ guarded_by mu
+
+//@ props C15 C14 C16
+//@ func SyncMap.Get
+//@   nopanic
+//@   inline
+//@   requires sm.ma != nil
+
+//@ props C15 C14 C16
+//@ func SyncMap.Set
+//@   nopanic
+//@   inline
+//@   requires sm.ma != nil
+
+//@ props C15 C14 C16
+//@ func SyncMap.Delete
+//@   nopanic
+//@   inline
+//@   requires sm.ma != nil
+
+//@ props C15 C14 C16
+//@ func SyncMap.GetOrSet
+//@   nopanic
+//@   inline
+//@   requires sm.ma != nil
+
+//@ props C15 C14 C16
+//@ func SyncMap.Keys$1
+//@   nopanic
+//@   ghost callback yield assigns map_
+//@   requires s != nil && s.ma != nil
+//@   loop 1 invariant s != nil && s.ma != nil
+//@   loop 2 invariant s != nil
+
+//@ props C15 C14 C16
+//@ func SyncMap.Items$1
+//@   nopanic
+//@   ghost callback yield assigns map_
+//@   requires s != nil && s.ma != nil
+//@   loop 1 invariant s != nil && s.ma != nil
+//@   loop 2 invariant s != nil
